@@ -42,6 +42,10 @@ def classify_value(o):
     _, a, b = d
     ta, tb = de.tag(a), de.tag(b)
     if refvm.erase_modules(o.ref_canon) == refvm.erase_modules(o.dec_canon):
+        if not de.same_import_sequence(o):
+            return "wrong-module-and-import-sequence-differs", (
+                "values differ in which module a global comes from, and the decompile does not perform the VM's imports "
+                "one by one in the VM's order (an import was dropped or moved)")
         return "global-shadowed", ("values differ only in which module a bare global name resolves to "
                                    "(same attribute name imported from two modules)")
     ops = set(o.ops or ())
